@@ -4,11 +4,13 @@ use serde_json::Value;
 pub mod c01;
 pub mod c02;
 pub mod c03;
+pub mod c04;
 pub mod c05;
 pub mod c05b;
 pub mod c06;
 pub mod c07;
 pub mod c08;
+pub mod c09;
 pub mod c10;
 pub mod c11;
 pub mod c12;
@@ -20,6 +22,7 @@ pub mod c18;
 pub mod c19;
 pub mod c20;
 pub mod cfgcheck;
+pub mod decor;
 pub mod valspace;
 pub mod c16;
 
@@ -34,10 +37,12 @@ pub fn lookup(id: &str) -> Option<Entry> {
         "C01" => Entry { level: "exploration", run: c01::run, replay: c01::replay },
         "C02" => Entry { level: "fault_enumeration", run: c02::run, replay: c02::replay },
         "C03" => Entry { level: "model_checking", run: c03::run, replay: c03::replay },
+        "C04" => Entry { level: "exploration", run: c04::run, replay: c04::replay },
         "C05" => Entry { level: "model_checking", run: c05::run, replay: c05::replay },
         "C06" => Entry { level: "exploration", run: c06::run, replay: c06::replay },
         "C07" => Entry { level: "exploration", run: c07::run, replay: c07::replay },
         "C08" => Entry { level: "exploration", run: c08::run, replay: c08::replay },
+        "C09" => Entry { level: "exploration", run: c09::run, replay: c09::replay },
         "C10" => Entry { level: "exploration", run: c10::run, replay: c10::replay },
         "C11" => Entry { level: "exploration", run: c11::run, replay: c11::replay },
         "C12" => Entry { level: "exploration", run: c12::run, replay: c12::replay },
